@@ -33,13 +33,19 @@ Import ListNotations.
    queue are exactly the non-report key presses decoded so far, in order,
    without duplication.  (Keys the coroutine pushes back when a handler has set
    the result return to the front of the queue.  What a reset() throws away is
-   logged as ELost; C17_nothing_after_accept shows that is always nothing.) *)
+   logged as ELost; C17_nothing_after_accept shows that is always nothing.)
+   Stated for binding sets whose handlers feed no key presses of their own into
+   the processor (no_feeds): a fed key press is an extra key.  The one feeding
+   handler of the real table (C-j feeds ControlM with first=True) is covered by
+   C17_script, whose reference machine delivers the fed key right after C-j. *)
 Theorem C17_conservation : forall (E bid res PS : Type)
   (lookup lookup_scan : E -> list kp -> option bid) (waits : E -> list kp -> bool)
-  (eff : bid -> list kp -> E -> E * option res) (is_cprh : bid -> bool) (cpr_lookup : E -> option bid) (restart : E -> E)
+  (eff : bid -> list kp -> E -> E * option res) (is_cprh : bid -> bool) (cpr_lookup : E -> option bid)
+  (feeds : bid -> list kp -> E -> list kp) (restart : E -> E)
   (pfeed : str -> PS -> PS * list kp) (pflush : PS -> PS * list kp) (res_eof : res),
-  let run := @run E bid res PS lookup lookup_scan waits eff is_cprh cpr_lookup restart pfeed pflush res_eof in
+  let run := @run E bid res PS lookup lookup_scan waits eff is_cprh cpr_lookup feeds restart pfeed pflush res_eof in
   let init := @init E bid res PS in
+  no_feeds feeds ->
   forall ls e p r,
   let s := run ls (init e p r) in
   nc (logged (co s)) ++ nc (kbuf (co s)) ++ nc (ikeys (store s)) ++ nc (ikeys (queue s)) = nc (decoded s).
@@ -49,9 +55,10 @@ Print Assumptions C17_conservation.
 (* A cursor position report is never stored as type-ahead. *)
 Theorem C17_cpr_never_stored : forall (E bid res PS : Type)
   (lookup lookup_scan : E -> list kp -> option bid) (waits : E -> list kp -> bool)
-  (eff : bid -> list kp -> E -> E * option res) (is_cprh : bid -> bool) (cpr_lookup : E -> option bid) (restart : E -> E)
+  (eff : bid -> list kp -> E -> E * option res) (is_cprh : bid -> bool) (cpr_lookup : E -> option bid)
+  (feeds : bid -> list kp -> E -> list kp) (restart : E -> E)
   (pfeed : str -> PS -> PS * list kp) (pflush : PS -> PS * list kp) (res_eof : res),
-  let run := @run E bid res PS lookup lookup_scan waits eff is_cprh cpr_lookup restart pfeed pflush res_eof in
+  let run := @run E bid res PS lookup lookup_scan waits eff is_cprh cpr_lookup feeds restart pfeed pflush res_eof in
   let init := @init E bid res PS in
   forall ls e p r,
   Forall (fun i => item_is_cpr i = false) (store (run ls (init e p r))).
@@ -61,9 +68,10 @@ Print Assumptions C17_cpr_never_stored.
 (* The fuelled retry loop of the key processor never runs out. *)
 Theorem C17_fuel : forall (E bid res PS : Type)
   (lookup lookup_scan : E -> list kp -> option bid) (waits : E -> list kp -> bool)
-  (eff : bid -> list kp -> E -> E * option res) (is_cprh : bid -> bool) (cpr_lookup : E -> option bid) (restart : E -> E)
+  (eff : bid -> list kp -> E -> E * option res) (is_cprh : bid -> bool) (cpr_lookup : E -> option bid)
+  (feeds : bid -> list kp -> E -> list kp) (restart : E -> E)
   (pfeed : str -> PS -> PS * list kp) (pflush : PS -> PS * list kp) (res_eof : res),
-  let run := @run E bid res PS lookup lookup_scan waits eff is_cprh cpr_lookup restart pfeed pflush res_eof in
+  let run := @run E bid res PS lookup lookup_scan waits eff is_cprh cpr_lookup feeds restart pfeed pflush res_eof in
   let init := @init E bid res PS in
   forall ls e p r, oof (co (run ls (init e p r))) = false.
 Proof. exact fuel_suffices. Qed.
@@ -76,9 +84,10 @@ Print Assumptions C17_fuel.
    alone. *)
 Theorem C17_cpr_silent : forall (E bid res PS : Type)
   (lookup lookup_scan : E -> list kp -> option bid) (waits : E -> list kp -> bool)
-  (eff : bid -> list kp -> E -> E * option res) (is_cprh : bid -> bool) (cpr_lookup : E -> option bid) (restart : E -> E)
+  (eff : bid -> list kp -> E -> E * option res) (is_cprh : bid -> bool) (cpr_lookup : E -> option bid)
+  (feeds : bid -> list kp -> E -> list kp) (restart : E -> E)
   (pfeed : str -> PS -> PS * list kp) (pflush : PS -> PS * list kp) (res_eof : res),
-  let run := @run E bid res PS lookup lookup_scan waits eff is_cprh cpr_lookup restart pfeed pflush res_eof in
+  let run := @run E bid res PS lookup lookup_scan waits eff is_cprh cpr_lookup feeds restart pfeed pflush res_eof in
   let init := @init E bid res PS in
   forall ls e p r,
   let s := run ls (init e p r) in
@@ -93,10 +102,11 @@ Print Assumptions C17_cpr_silent.
    state, the key buffer and the result phase exactly as they were. *)
 Theorem C17_cpr_transparent : forall (E bid res : Type)
   (lookup lookup_scan : E -> list kp -> option bid) (waits : E -> list kp -> bool)
-  (eff : bid -> list kp -> E -> E * option res) (is_cprh : bid -> bool) (cpr_lookup : E -> option bid),
-  cpr_silent eff cpr_lookup ->
+  (eff : bid -> list kp -> E -> E * option res) (is_cprh : bid -> bool) (cpr_lookup : E -> option bid)
+  (feeds : bid -> list kp -> E -> list kp),
+  cpr_silent eff cpr_lookup feeds ->
   forall (c : core E bid res) k, is_cpr k = true ->
-  let c' := deliver lookup lookup_scan waits eff is_cprh cpr_lookup (IKey k) c in
+  let c' := deliver lookup lookup_scan waits eff is_cprh cpr_lookup feeds (IKey k) c in
   est c' = est c /\ kbuf c' = kbuf c /\ cph c' = cph c /\ pb c' = pb c.
 Proof. exact cpr_transparent. Qed.
 Print Assumptions C17_cpr_transparent.
@@ -110,11 +120,12 @@ Print Assumptions C17_cpr_transparent.
    Prompts ended by closing the input are excluded (LClose). *)
 Theorem C17_nothing_after_accept : forall (E bid res PS : Type)
   (lookup lookup_scan : E -> list kp -> option bid) (waits : E -> list kp -> bool)
-  (eff : bid -> list kp -> E -> E * option res) (is_cprh : bid -> bool) (cpr_lookup : E -> option bid) (restart : E -> E)
+  (eff : bid -> list kp -> E -> E * option res) (is_cprh : bid -> bool) (cpr_lookup : E -> option bid)
+  (feeds : bid -> list kp -> E -> list kp) (restart : E -> E)
   (pfeed : str -> PS -> PS * list kp) (pflush : PS -> PS * list kp) (res_eof : res),
-  let run := @run E bid res PS lookup lookup_scan waits eff is_cprh cpr_lookup restart pfeed pflush res_eof in
+  let run := @run E bid res PS lookup lookup_scan waits eff is_cprh cpr_lookup feeds restart pfeed pflush res_eof in
   let init := @init E bid res PS in
-  cpr_silent eff cpr_lookup ->
+  cpr_silent eff cpr_lookup feeds ->
   forall ls e p r, ~ In LClose ls ->
   let s := run ls (init e p r) in
   Forall ok_ev (rlog (co s)) /\ cph (co s) <> CBroken res /\
@@ -124,28 +135,35 @@ Proof. exact nothing_after_accept. Qed.
 Print Assumptions C17_nothing_after_accept.
 
 (* Script theorem.  [lines_ok e lines rs]: typed into a fresh prompt in edit
-   state e, the keys of the first line do not end the prompt before their
-   last key, which ends it with result r1; the second line likewise from the
+   state e, the keys of the first line - each delivered together with what its
+   handler feeds with first=True, as process_keys does - do not end the prompt
+   before their last key, which ends it with result r1; the second line likewise from the
    restarted state; and so on.  Then, for every way of writing, reading and
    chunking, every moment of starting and ending prompts and reports arriving
    ANYWHERE between key presses, such that (a) no timeout label fires and the
    input is not closed and (b) what has been decoded so far is, reports
    apart, a prefix of the script: the prompts that have returned so far
    returned exactly the first lines' results, in order.
-   Hypotheses on the binding set: cpr_silent, and no_pushback - no binding
+   Handlers may feed key presses to the front of the queue (the C-j binding:
+   a line ended by LF is accepted exactly like one ended by CR, also when more
+   keys are already waiting behind it).
+   Hypotheses on the binding set: cpr_silent, and no_pushback - when a key
+   press ends the prompt nothing is left to go back to the queue: no binding
    that ends the prompt fires from the retry scan with keys left in the
-   buffer (C17_exit_criterion is the static form checked on the real table). *)
+   buffer (C17_exit_criterion is the static form checked on the real table)
+   or before everything fed together with it has been delivered. *)
 Theorem C17_script : forall (E bid res PS : Type)
   (lookup lookup_scan : E -> list kp -> option bid) (waits : E -> list kp -> bool)
-  (eff : bid -> list kp -> E -> E * option res) (is_cprh : bid -> bool) (cpr_lookup : E -> option bid) (restart : E -> E)
+  (eff : bid -> list kp -> E -> E * option res) (is_cprh : bid -> bool) (cpr_lookup : E -> option bid)
+  (feeds : bid -> list kp -> E -> list kp) (restart : E -> E)
   (pfeed : str -> PS -> PS * list kp) (pflush : PS -> PS * list kp) (res_eof : res),
-  let run := @run E bid res PS lookup lookup_scan waits eff is_cprh cpr_lookup restart pfeed pflush res_eof in
+  let run := @run E bid res PS lookup lookup_scan waits eff is_cprh cpr_lookup feeds restart pfeed pflush res_eof in
   let init := @init E bid res PS in
-  cpr_silent eff cpr_lookup -> no_pushback lookup lookup_scan waits eff is_cprh ->
+  cpr_silent eff cpr_lookup feeds -> no_pushback lookup lookup_scan waits eff is_cprh cpr_lookup feeds ->
   forall ls e p r lines rs,
   quiet ls ->
   let s := run ls (init e p r) in
-  @lines_ok E bid res lookup lookup_scan waits eff is_cprh restart (restart e) lines rs ->
+  @lines_ok E bid res lookup lookup_scan waits eff is_cprh cpr_lookup feeds restart (restart e) lines rs ->
   (exists tail, nc (decoded s) ++ tail = concat lines) ->
   results s = firstn (length (results s)) rs.
 Proof. exact script. Qed.
@@ -153,14 +171,14 @@ Print Assumptions C17_script.
 
 (* The hypotheses of C17_script are satisfiable. *)
 Example C17_hypotheses_satisfiable :
-  cpr_silent t_eff t_cpr_lookup /\ no_pushback t_lookup t_lookup t_waits t_eff (fun _ => false).
+  cpr_silent t_eff t_cpr_lookup t_feeds /\ no_pushback t_lookup t_lookup t_waits t_eff (fun _ => false) t_cpr_lookup t_feeds.
 Proof. exact (conj tiny_cpr_silent tiny_no_pushback). Qed.
 Print Assumptions C17_hypotheses_satisfiable.
 
 (* The real table (regenerated): in every state a report is delivered to the
    handler of bindings/cpr.py, which neither ends the prompt nor edits ... *)
 Theorem C17_emacs_cpr_silent :
-  cpr_silent e_eff e_cpr_lookup /\ forall e, exists b, e_cpr_lookup e = Some b /\ e_is_cprh b = true.
+  cpr_silent e_eff e_cpr_lookup e_feeds /\ forall e, exists b, e_cpr_lookup e = Some b /\ e_is_cprh b = true.
 Proof. exact (conj emacs_cpr_silent emacs_cpr_bound). Qed.
 Print Assumptions C17_emacs_cpr_silent.
 
@@ -182,3 +200,12 @@ Theorem C17_cpr_transparent_witness :
   results_of (one_prompt w_quoted) = [RText [102; 111; 97; 114]].
 Proof. exact (conj witness_plain (conj witness_split witness_quoted)). Qed.
 Print Assumptions C17_cpr_transparent_witness.
+
+(* 'one' LF 'two' LF 'three' LF read at once by the first of three prompts:
+   ['one'; 'two'; 'three'] (seeded change C17-7: without first=True the result
+   is ['onetwothree'; ''; '']). *)
+Theorem C17_line_feed_witness :
+  results_of [LWrite w_lf; LStart; LRead 1024; LExit; LStart; LExit; LStart; LExit]
+  = [RText [111; 110; 101]; RText [116; 119; 111]; RText [116; 104; 114; 101; 101]].
+Proof. exact witness_lf. Qed.
+Print Assumptions C17_line_feed_witness.
